@@ -235,10 +235,10 @@ class Fn:
                     k[l] = k[rv['a']['l']]
                 elif rv['k'] == 'agg' and rv.get('ak') == 'adt' and rv.get('vidx') is not None and _PS_ENUM.match(rv.get('adt') or ''):
                     k[l] = ('V', rv['adt'], rv['vidx']) if rv.get('ops') else ('V', rv['adt'], rv['vidx'], 'unit')
-                elif rv['k'] == 'agg' and rv.get('ak') == 'adt' and rv.get('vidx') is not None and not rv.get('ops') \
+                elif rv['k'] == 'agg' and rv.get('ak') == 'adt' and rv.get('vidx') is not None \
                         and (self.crate.adts.get(norm(rv.get('adt') or '')) or {}).get('kind') == 'enum':
-                    # a field-less variant of one of the crate's own enums (`state != TaskState::Completed`)
-                    k[l] = ('V', rv['adt'], rv['vidx'], 'unit')
+                    # a variant of one of the crate's own enums (`state != TaskState::Completed`; a private `Step::Through(..)` matched on next)
+                    k[l] = ('V', rv['adt'], rv['vidx']) if rv.get('ops') else ('V', rv['adt'], rv['vidx'], 'unit')
                 elif rv['k'] == 'ref' and not rv['a'].get('p') and isinstance(k.get(rv['a'].get('l')), tuple) and k[rv['a']['l']][0] == 'V':
                     k[l] = ('&',) + k[rv['a']['l']]
                 elif rv['k'] == 'agg' and rv.get('ak') == 'tuple':
